@@ -133,7 +133,7 @@ type World struct {
 	Chk        *commitPoint
 	ChkSnap    wmpt.Node // an in-memory snapshot (CopyRoot) taken together with the checkpoint
 	ChkKeys    []string  // storage keys present when the checkpoint was taken
-	SinceChk   int      // commits since the checkpoint
+	SinceChk   int       // commits since the checkpoint
 	RolledBack bool
 	// context of the last failed recovery check (for attributing it to a known finding)
 	FailCP    *commitPoint
